@@ -18,10 +18,12 @@
      never ends from 4095 bytes on (D2);
    * the specification is order independent.
   Witnesses (`decide`): D1, F02-2BR, F02-BIGSUFFIX end to end through `cliFinal`.
-  NOT proved: `hostlist_filter_regex` = filter (iterator + remove; tied to the specification by the
-  correspondence runs only), and the composition `cliFinal = spec` for one-bracket small inputs.
+   * repaired D19: `hostlist_filter_regex` (iterate + `hostlist_remove`) leaves exactly the hosts
+     the filter keeps, and `wcoll_apply_regex` the hosts that pass every filter (order, multiplicity);
+  NOT proved: the same for the UNCHANGED `hostlist_remove` (D19: the iterator revisits hosts; the
+  test is idempotent, covered by the correspondence runs), and the composition `cliFinal = spec`.
 -/
-import PdshVerif.Opt.ExcludeLemmas
+import PdshVerif.Opt.ExcludeFilter
 
 namespace PdshVerif.C02
 open PdshVerif.Hostlist PdshVerif.Opt PdshVerif.Opt.Exclude
@@ -62,6 +64,28 @@ theorem exclusion_repaired (cfg : Cfg) (hfix : cfg.fixDeleteAll = true) (es : Li
     ∃ e', applyExcluded cfg (es.map (·.1)) e = .ok e' ∧ e'.Good ∧
       e'.hosts = e.hosts.filter (fun h => !(es.flatMap (·.2)).contains h) :=
   applyExcluded_repaired cfg hfix es e hg hok
+
+/-! ### regex filters -/
+/-- FILTER (repaired D19): `hostlist_filter_regex(hl, re)` — a live iterator over the list, a
+    `hostlist_remove` for every host the filter rejects, through range splits, shrinking records and
+    records that go away — leaves exactly `hosts.filter keep`, in order and multiplicity.
+    (`IdsOk`: distinct record identities; `PrintsFull`: D17 repaired or narrow numbers; no other
+    live iterator; the oracle answers for every host of the list) -/
+theorem filterRegex_hosts (cfg : Cfg) (hfix : cfg.fixRemoveDepth = true) (m : Str → Option Bool) (exclude : Bool)
+    (pat : Str) (e : EL) (hid : e.IdsOk) (hg : e.Good) (hf : ∀ q ∈ e.ranges, q.PrintsFull cfg) (hits : e.its = [])
+    (hm : ∀ h ∈ e.hosts, (m h).isSome = true) :
+    ∃ e', filterRegex cfg m exclude pat e = .ok e' ∧ e'.hosts = e.hosts.filter (keepOf m exclude) ∧ e'.Good := by
+  obtain ⟨e', h1, h2, _, h4, _, _⟩ := filterRegex_spec cfg hfix m exclude pat e hid hg hf hits hm
+  exact ⟨e', h1, h2, h4⟩
+
+/-- `wcoll_apply_regex` (repaired D19): the hosts that pass EVERY filter of `regex_list` stay;
+    since `keepAll` is a conjunction the order of the filters does not matter -/
+theorem applyRegex_hosts (cfg : Cfg) (hfix : cfg.fixRemoveDepth = true) (env : Env) (rs : List (Bool × Str)) (e : EL)
+    (hid : e.IdsOk) (hg : e.Good) (hf : ∀ q ∈ e.ranges, q.PrintsFull cfg) (hits : e.its = [])
+    (hm : ∀ p ∈ rs, ∀ h ∈ e.hosts, (env.rematch p.2 h).isSome = true) :
+    ∃ e', applyRegex cfg env rs e = .ok e' ∧ e'.hosts = e.hosts.filter (keepAll env rs) ∧ e'.Good := by
+  obtain ⟨e', h1, h2, _, h4, _, _⟩ := applyRegex_spec cfg hfix env rs e hid hg hf hits hm
+  exact ⟨e', h1, h2, h4⟩
 
 /-! ### the buffer loop of `list_push_hostlist` (D2) -/
 /-- TERMINATION (repaired D2): the loop stops within 12 doublings whatever the length of the
